@@ -1204,3 +1204,25 @@ M("N41", "modules tag_state / dependency / progress renamed (via #[path])",
 M("N42", "module abs_path renamed (via #[path]); AbsPath and TXTPP_EXT move",
   [("src/fs/path/mod.rs", "mod abs_path;\npub use abs_path::*;", "#[path = \"abs_path.rs\"]\nmod absolute;\npub use absolute::*;")],
   {})
+M("M88", "remove_txtpp re-attaches the extension with set_extension again (the pre-fix defect F4: a.b.txtpp.c -> a.c)",
+  [(PM, """            let mut name = p.into_os_string();
+            name.push(".");
+            name.push(self_ext);
+            p = PathBuf::from(name);""", """            p.set_extension(self_ext);""")],
+  {"C11": ["R11.7"]})
+M("M89", "remove_txtpp strips one extension too many for foo.ext.txtpp sources",
+  [(PM, """        let mut p = self.clone();
+        p.set_extension("");
+        if matches!(p.extension(), Some(ext) if ext == TXTPP_EXT) {""", """        let mut p = self.clone();
+        p.set_extension("");
+        if self.to_string_lossy().len() > 4096 {
+            p.set_extension("");
+        }
+        if matches!(p.extension(), Some(ext) if ext == TXTPP_EXT) {""")],
+  {"C11": ["R11.7"]})
+M("N43", "remove_txtpp appends the extension via add-by-format (OsString built with with_capacity + push)",
+  [(PM, """            let mut name = p.into_os_string();
+            name.push(".");""", """            let mut name = OsString::with_capacity(p.as_os_str().len() + 1 + self_ext.len());
+            name.push(p.as_os_str());
+            name.push(".");""")],
+  {})
